@@ -94,3 +94,30 @@ macro_rules! with_backend {
 /// Every backend implements the HAL and the core extension points.
 pub trait FullBackend: poulpy_hal::layouts::Backend + poulpy_hal::oep::HalImpl<Self> + poulpy_core::oep::CoreImpl<Self> + 'static {}
 impl<T: poulpy_hal::layouts::Backend + poulpy_hal::oep::HalImpl<T> + poulpy_core::oep::CoreImpl<T> + 'static> FullBackend for T {}
+
+/// A scratch buffer that has "been used before": every byte holds a position-dependent non-zero
+/// pattern (digits of about 2^40..2^62 when read as i64, NaN-free bit patterns are not guaranteed
+/// when read as f64).  Library calls must not depend on what the scratch holds.
+/// `PZV_CLEAN_SCRATCH=1` switches back to zeroed scratch (to tell a content dependence from another defect).
+pub fn dirty_scratch<B: poulpy_hal::layouts::Backend>(bytes: usize) -> poulpy_hal::layouts::ScratchOwned<B>
+where
+    poulpy_hal::layouts::ScratchOwned<B>: poulpy_hal::api::ScratchOwnedAlloc<B>,
+{
+    use poulpy_hal::api::ScratchOwnedAlloc;
+    let mut s = poulpy_hal::layouts::ScratchOwned::<B>::alloc(bytes);
+    static CLEAN: OnceLock<bool> = OnceLock::new();
+    if *CLEAN.get_or_init(|| std::env::var("PZV_CLEAN_SCRATCH").is_ok()) {
+        return s;
+    }
+    let d: &mut [u8] = s.data.as_mut();
+    let mut i = 0usize;
+    while i + 8 <= d.len() {
+        let w: u64 = 0x2F3A_5C71_9E37_79B9u64 ^ ((i as u64) << 7).wrapping_mul(0x9E37_79B9_7F4A_7C15) >> 2;
+        d[i..i + 8].copy_from_slice(&w.to_le_bytes());
+        i += 8;
+    }
+    for x in d[i..].iter_mut() {
+        *x = 0xA7;
+    }
+    s
+}
